@@ -18,9 +18,17 @@ fn main() {
     let (w, cnt) = counting_waker();
     let mut cx = ctx(&w);
     let mut s = Box::pin(g.stream());
-    let r1 = match s.poll_next_unpin(&mut cx) { Poll::Ready(Some(r)) => r, _ => panic!("expected first root") };
-    let r2 = match s.poll_next_unpin(&mut cx) { Poll::Ready(Some(r)) => r, _ => panic!("expected second root") };
-    assert!(matches!(s.poll_next_unpin(&mut cx), Poll::Pending));
+    let mut next_root = |k: &str| {
+        let before = wakes(&cnt);
+        match s.poll_next_unpin(&mut cx) {
+            Poll::Ready(Some(r)) => r,
+            Poll::Ready(None) => { println!("VIOLATION: the stream ended before yielding the {k} function without predecessors"); std::process::exit(1) }
+            Poll::Pending => { println!("VIOLATION: poll returned Pending (wake-ups signalled during the poll: {}) although the {k} function without predecessors (A and B have none) was never yielded", wakes(&cnt) - before); std::process::exit(1) }
+        }
+    };
+    let r1 = next_root("first");
+    let r2 = next_root("second");
+    if !matches!(s.poll_next_unpin(&mut cx), Poll::Pending) { println!("VIOLATION: a third function was yielded while B, the only predecessor of C, is still held"); std::process::exit(1); }
     let w0 = wakes(&cnt);
     // drop in the order (A, B): the notification that releases C is the second one
     let (first, second) = if r1.id == 0 { (r1, r2) } else { (r2, r1) };
